@@ -56,21 +56,25 @@ def check_structure(case):
         obj = _obj(case)
         res = obj.rfa()
         first = (np.array(res[0], copy=True), np.array(res[1], copy=True)) if isinstance(res, tuple) and len(res) == 2 else None
-        res2 = obj.rfa()          # a strategy object may be asked again: same answer, first answer untouched
+        if first is not None and isinstance(res[0], np.ndarray) and isinstance(res[1], np.ndarray) and case.get("edit_between", True):
+            res[0][...] = res[0] - 0.5      # the caller owns what it was handed: edit in place ...
+            res[1][...] = res[1] + 3.0
+            res = (res[0] + 0.5, res[1] - 3.0)
+        res2 = obj.rfa()          # ... and ask the same strategy object again: same answer
     except Exception as e:  # noqa
         return [fail("raised", {"exception": repr(e)}, dict(key, exc=type(e).__name__))], None
     fails = []
     if first is not None and isinstance(res2, tuple) and len(res2) == 2:
         try:
             same = all(np.asarray(a).shape == np.asarray(b).shape and np.array_equal(np.asarray(a, dtype=float), np.asarray(b, dtype=float))
-                       for a, b in zip(first, res2)) and all(np.array_equal(np.asarray(a, dtype=float), np.asarray(b, dtype=float)) for a, b in zip(first, res))
+                       for a, b in zip(first, res2))
         except Exception:
             same = False
         if not same:
             fails.append(fail("second-rfa-call-differs", {"first_len": len(first[0]), "second_len": len(np.asarray(res2[0]))}, key))
     if not (isinstance(res, tuple) and len(res) == 2):
         return [fail("not-a-pair", {"type": type(res).__name__}, key)], None
-    xs, ys = res
+    xs, ys = first if first is not None else res
     for nm, arr in (("x", xs), ("y", ys)):
         if not isinstance(arr, np.ndarray):
             fails.append(fail("not-ndarray", {"which": nm, "type": type(arr).__name__}, dict(key, which=nm)))
